@@ -59,6 +59,12 @@ impl RasterBlitter for MaskSuperBlitter {
         x1 -= self.x;
         x2 -= self.x;
         x2 = x2.min(self.width * SCALE);
+        // The mask covers the bounds of the control polygon, but stepping along a curve can
+        // land slightly outside of them: don't index in front of the row.
+        x1 = x1.max(0);
+        if x2 <= x1 {
+            return;
+        }
         let max: u8 = ((1 << (8 - SHIFT)) - (((y & MASK) + 1) >> SHIFT)) as u8;
         let start = (y / 4 * self.width) as usize;
 
@@ -114,6 +120,7 @@ impl RasterBlitter for MaskBlitter {
         }
 
         x2 = x2.min(self.width * SCALE);
+        x1 = x1.max(0);
 
         x1 >>= SHIFT;
         x2 >>= SHIFT;
